@@ -203,6 +203,18 @@ def run_case(case):
                     for nm in got:
                         p = os.path.join(out, nm)
                         datas[nm] = open(p, "rb").read() if os.path.isfile(p) else None
+                elif case.get("extract") == "hash":
+                    # the hashing sink of the library: products hold the SHA-256 of what they were given, and its length
+                    fac = py7zr.io.HashIOFactory()
+                    r.extractall(factory=fac)
+                    datas = {}
+                    for nm in got:
+                        if nm in fac.products:
+                            dg = fac.products[nm].read()
+                            k = by_hash.get(dg, -1)
+                            datas[nm] = contents[k] if k != -1 and fac.products[nm].size() == len(contents[k]) else b"\x00<digest of other bytes>"
+                        else:
+                            datas[nm] = None
                 else:
                     fac = py7zr.io.BytesIOFactory(1 << 31)
                     r.extractall(factory=fac)
